@@ -79,7 +79,7 @@ def run(ctx):
         mods = corpus.nvm_corpus(asan, sc.sub("nvm"), srcs, san=True)
         # keep a spread of sizes; skip huge files in quick tier (probe cost is quadratic in size)
         mods = [(s, p, os.path.getsize(p)) for s, p in mods]
-        limit = 6000 if ctx.quick() else 40000
+        limit = 2500 if ctx.quick() else 12000   # the probe is quadratic in the file size
         mods = [m for m in mods if m[2] <= limit]
         mods.sort(key=lambda m: (m[2], m[0]))
         want = ctx.n(10, 60)
@@ -89,8 +89,8 @@ def run(ctx):
             mods = [mods[i] for i in idx]
         ctx.require(len(mods) >= 4, "fewer than 4 compiler-produced modules available (%d)" % len(mods))
 
-        totals = dict(flips=0, truncs=0, bursts=0, header=0, tails=0, ctrl=0)
-        accepted = dict(flips=0, truncs=0, bursts=0, header=0, tails=0)
+        totals = dict(flips=0, truncs=0, bursts=0, header=0, tails=0, ctrl=0, bytexor=0, solid=0)
+        accepted = dict(flips=0, truncs=0, bursts=0, header=0, tails=0, bytexor=0, solid=0)
         samples = []
         patterns = ctx.n(2, 8)
 
@@ -107,7 +107,7 @@ def run(ctx):
                 ctx.violation("probe-sanitizer|" + sig, "sanitizer report while loading a faulted copy of %s\n%s" % (rel, rep),
                               {"input.nvm": open(path, "rb").read(), "source.nano": open(src, "rb").read()})
                 continue
-            m = re.search(r"SUMMARY size=(\d+) ctrl=(\d+)/(\d+) flips=(\d+)/(\d+) truncs=(\d+)/(\d+) bursts=(\d+)/(\d+) header=(\d+)/(\d+) tails=(\d+)/(\d+)", r.text())
+            m = re.search(r"SUMMARY size=(\d+) ctrl=(\d+)/(\d+) flips=(\d+)/(\d+) truncs=(\d+)/(\d+) bursts=(\d+)/(\d+) header=(\d+)/(\d+) tails=(\d+)/(\d+) bytexor=(\d+)/(\d+) solid=(\d+)/(\d+)", r.text())
             if not m or r.status != 0:
                 ctx.violation("probe-abnormal|rc=%s sig=%s" % (r.rc, r.sig),
                               "nvm_probe ended abnormally on %s: %s" % (rel, r.brief()),
@@ -117,7 +117,7 @@ def run(ctx):
             ctx.require(g[1] == 1, "control load of unfaulted %s failed" % rel)
             totals["ctrl"] += 1
             for name, a, n in (("flips", g[3], g[4]), ("truncs", g[5], g[6]), ("bursts", g[7], g[8]),
-                               ("header", g[9], g[10]), ("tails", g[11], g[12])):
+                               ("header", g[9], g[10]), ("tails", g[11], g[12]), ("bytexor", g[13], g[14]), ("solid", g[15], g[16])):
                 totals[name] += n
                 accepted[name] += a
             for line in r.text().splitlines():
@@ -166,7 +166,7 @@ def run(ctx):
                                "cmd.txt": "nano_vm damaged.nvm   # asan flavor\n"})
         ctx.require(totals["ctrl"] >= 4 and totals["flips"] > 1000, "too few faults explored")
         ctx.require(n_cli >= 50, "too few CLI cases (%d)" % n_cli)
-        n_faults = sum(totals[k] for k in ("flips", "truncs", "bursts", "header", "tails"))
+        n_faults = sum(totals[k] for k in ("flips", "truncs", "bursts", "header", "tails", "bytexor", "solid"))
         return ctx.finish({
             "evaluations": n_faults + n_cli,
             "distinct_nontrivial": n_faults,
@@ -174,7 +174,8 @@ def run(ctx):
                     "header bit) of one compiler-produced module handed to the real nvm_deserialize under ASan+UBSan; all are "
                     "non-trivial (the faulted buffer differs from the intact file, whose control load succeeds)",
             "exhaustive": True,
-            "explanation": "single-bit flips of every body bit and all truncation lengths are enumerated completely for each module; "
+            "explanation": "single-bit flips of every body bit, every error pattern confined to one byte (255 substitutions per byte), every solid "
+                           "(all bits inverted) burst of 2..32 bits at every bit offset and all truncation lengths are enumerated completely for each module; other "
                            "bursts are sampled (all lengths 2..9 at every offset, lengths 10..32 1:3, %d seeded patterns each)" % patterns,
             "modules": totals["ctrl"],
             "faults_by_class": totals,
